@@ -35,7 +35,7 @@ FOREIGN_TYPES = [((), 'string'), ((), 'Vector'), ((), 'Matrix'), (('gtsam',), 'P
                  (('gtsam',), 'Tensor')]
 FOREIGN_TEMPLATES = [(('std',), 'vector', 1), (('std',), 'map', 2), ((), 'FastVector', 1),
                      (('gtsam',), 'BearingRange', 2), (('std',), 'optional', 1),
-                     (('ns',), 'Tpl', 2), (('std',), 'shared_ptr', 1)]
+                     (('ns',), 'Tpl', 2), (('std',), 'deque', 1)]
 BASIC_VALUE = ['bool', 'unsigned char', 'char', 'int', 'size_t', 'double', 'float']
 DEFAULTS = ['0', '1', '-1', '1.5', '-9.81', '1e-9', 'true', 'false', 'nullptr', '"hello"', '""',
             '"a, b"', "'c'", 'gtsam::Pose3()', 'Foo(1, 2)', '{1, 2}', 'std::vector<int>{1,2}',
@@ -103,6 +103,7 @@ class Decl:
     virtual: bool = False
     has_lists: bool = False
     scoped: bool = False  # some member uses T::X
+    lists: tuple = ()     # instantiation lists of the template (if complete)
 
 
 class Ctx:
@@ -113,6 +114,7 @@ class Ctx:
         self.used = {}  # path -> set of names declared in that scope
         self.lower_classes = set()
         self.scoped_ok = set()  # template parameters that may be used as T::X
+        self.enum_types = []    # enum types usable in the member being generated (M.Type)
         self.fn_count = {}      # (path, name) -> number of free functions of that name
         self.locked = set()     # (path, name) used as typedef target: must stay unique
 
@@ -173,6 +175,8 @@ def types(draw, ctx: Ctx, depth: int, tparams: Sequence[str] = (), qualifiers=Tr
         cats += ['templated'] * (4 if tparams else 2)
     if this and prof.this_type:
         cats.append('this')
+    if this and ctx.enum_types and not inner:
+        cats += ['enum'] * 2
     if numbers and inner:
         cats.append('number')
     cat = draw(st.sampled_from(cats))
@@ -206,6 +210,9 @@ def types(draw, ctx: Ctx, depth: int, tparams: Sequence[str] = (), qualifiers=Tr
             name = 'This'
         else:
             ns, name = ('This',), draw(st.sampled_from(['Value', 'Type', 'Sub']))
+    elif cat == 'enum':
+        e = draw(st.sampled_from(ctx.enum_types))
+        ns, name = e.ns, e.name
     elif cat == 'number':
         name = str(draw(st.integers(0, 99)))
     else:  # templated
@@ -257,6 +264,10 @@ def rets(draw, ctx: Ctx, tparams=(), this=False):
     return M.Ret(draw(types(ctx, prof.type_depth, tparams, allow_void=True, this=this)))
 
 
+def _iname(t: M.Type) -> str:
+    return (t.name + ''.join(_iname(a) for a in t.targs)).lower()
+
+
 @st.composite
 def templates(draw, ctx: Ctx, used=(), force_lists=None, max_params=None):
     prof = ctx.prof
@@ -286,7 +297,9 @@ def templates(draw, ctx: Ctx, used=(), force_lists=None, max_params=None):
             for _ in range(k):
                 x = draw(types(ctx, 2, (), qualifiers=qual, numbers=True,
                                templated=True, top_qualifiers=False))
-                if x not in lst:  # an instantiation list names each type once
+                # an instantiation list names each type once, and the generated names
+                # (NameArg..., namespaces do not take part) must differ
+                if x not in lst and _iname(x) not in [_iname(y) for y in lst]:
                     lst.append(x)
             insts = tuple(lst)
         params.append(M.TParam(nm, insts))
@@ -355,6 +368,8 @@ def classes(draw, ctx: Ctx, path: Tuple[str, ...]):
     members = []
     n = draw(st.integers(0, prof.max_members))
     mnames = _member_names(ctx)
+    ctx.enum_types = [M.Type(path, en) for (p_, owner, en) in ctx.enums
+                      if p_ == path and owner is None]
     prop_names = set()
     enum_names = set()
     kinds = ['ctor', 'method', 'method', 'method', 'static', 'prop']
@@ -416,6 +431,8 @@ def classes(draw, ctx: Ctx, path: Tuple[str, ...]):
             e = draw(enums(ctx, enum_names | {name}))
             enum_names.add(e.name)
             ctx.enums.append((path, name, e.name))
+            if not template:
+                ctx.enum_types = ctx.enum_types + [M.Type(path + (name,), e.name)]
             members.append(e)
         else:
             if prof.any_dunder:
@@ -426,10 +443,12 @@ def classes(draw, ctx: Ctx, path: Tuple[str, ...]):
                 dn = draw(st.sampled_from(['len', 'contains', 'iter']))
                 a = draw(arg_lists(ctx, ctp, max_args=1, min_args=1)) if dn == 'contains' else ()
                 members.append(M.Dunder(dn, a))
+    ctx.enum_types = []
     has_lists = bool(template) and all(p.insts for p in template.params)
     cls = M.Class(name, tuple(members), template, virtual, parent)
     scoped = any(t2.ns and t2.ns[0] in ctp for t in M.all_types(cls) for t2 in t.walk())
-    ctx.decls.append(Decl(path, name, 'class', len(ctp), virtual, has_lists, scoped))
+    ctx.decls.append(Decl(path, name, 'class', len(ctp), virtual, has_lists, scoped,
+                          tuple(p.insts for p in template.params) if has_lists else ()))
     return cls
 
 
@@ -484,9 +503,13 @@ def typedefs(draw, ctx: Ctx, path):
         ns, nm, n = draw(st.sampled_from(FOREIGN_TEMPLATES))
     qual = not findings.is_open('F-17-inst-qualifiers')
     plain = prof.scoped_needs_plain_arg and targets and d.scoped
-    targs = tuple(draw(types(ctx, 1 if plain else 2, (), qualifiers=qual, numbers=True,
-                             inner=True, top_qualifiers=qual))
-                  for _ in range(n))
+    if targets and d.lists and draw(st.integers(0, 2)) == 0:
+        # the same instantiation under a second name (template list entry + typedef)
+        targs = tuple(draw(st.sampled_from(list(lst))) for lst in d.lists)
+    else:
+        targs = tuple(draw(types(ctx, 1 if plain else 2, (), qualifiers=qual, numbers=True,
+                                 inner=True, top_qualifiers=qual))
+                      for _ in range(n))
     new = draw(class_name(used).filter(
         lambda s: not prof.unique_lower_class_names or s.lower() not in ctx.lower_classes))
     used.add(new)
